@@ -11,7 +11,7 @@ This module contains classes and functions to remove component tensors.
 from collections import defaultdict
 
 from ufl.algorithms.map_integrands import map_integrand_dags
-from ufl.classes import ComponentTensor, Index, MultiIndex, Zero
+from ufl.classes import ComponentTensor, Index, IndexSum, MultiIndex, Zero
 from ufl.corealg.map_dag import map_expr_dag
 from ufl.corealg.multifunction import MultiFunction
 from ufl.index_combination_utils import unique_sorted_indices
@@ -74,14 +74,34 @@ class IndexRemover(MultiFunction):
         # caches for reuse in the dispatched transformers
         self.vcaches = defaultdict(dict)
         self.rcaches = defaultdict(dict)
+        self._bound_indices = {}
 
     expr = MultiFunction.reuse_if_untouched
+
+    def _indices_bound_in(self, o):
+        """Return the indices bound by an IndexSum or ComponentTensor anywhere inside o."""
+        bound = self._bound_indices.get(o)
+        if bound is None:
+            bound = frozenset()
+            if isinstance(o, ComponentTensor | IndexSum):
+                bound = frozenset(o.ufl_operands[1].indices())
+            for op in o.ufl_operands:
+                bound = bound | self._indices_bound_in(op)
+            self._bound_indices[o] = bound
+        return bound
 
     def indexed(self, o, o1, i1):
         """Simplify Indexed."""
         if isinstance(o1, ComponentTensor):
             # Simplify Indexed ComponentTensor
             o2, i2 = o1.ufl_operands
+            if not self._indices_bound_in(o2).isdisjoint(set(i1) | set(i2)):
+                # The index replacement below is not aware of scopes:
+                # do not substitute when an inner sum or component
+                # tensor binds one of the indices involved
+                if o.ufl_operands[0] is o1:
+                    return o
+                return o._ufl_expr_reconstruct_(o1, i1)
             # Replace outer indices
             rkey = (i2, i1)
             rule = self.rules.get(rkey)
